@@ -20,7 +20,7 @@ RULE = ("a case is (hash algorithm, secret p as text or bytes - empty, Unicode, 
         "dumps/loads in every format so the same challenges keep their outcome, and a plaintext written by hand into "
         "a document is hashed on load; non-trivial = non-empty p with >= 3 near misses judged; distinct = distinct "
         "case content")
-REQUIRED = ("byte_string_secrets_given_as_default", "sibling_text_lists_taken_over", "digest_values_made_with_a_chosen_salt", "chosen_salts_refused", "secrets_of_round_sizes", "secrets_of_whole_mebibytes", "secrets_shaped_like_references", "printed_forms_parsed_back", "byte_secrets_that_are_not_utf8", "digest_values_with_other_salt_length", "plaintext_in_included_file_hashed", "same_field_reassignments", "env_bound_unset_variable", "reset_default_checks", "bulk_list_salt_checks", "digests_recomputed", "fresh_salt_checks", "challenge_accepts_p", "challenge_rejects_q", "leak_scans_memory",
+REQUIRED = ("dict_of_challenges_checks", "plaintext_in_hand_typed_xml_hashed", "byte_string_secrets_given_as_default", "sibling_text_lists_taken_over", "digest_values_made_with_a_chosen_salt", "chosen_salts_refused", "secrets_of_round_sizes", "secrets_of_whole_mebibytes", "secrets_shaped_like_references", "printed_forms_parsed_back", "byte_secrets_that_are_not_utf8", "digest_values_with_other_salt_length", "plaintext_in_included_file_hashed", "same_field_reassignments", "env_bound_unset_variable", "reset_default_checks", "bulk_list_salt_checks", "digests_recomputed", "fresh_salt_checks", "challenge_accepts_p", "challenge_rejects_q", "leak_scans_memory",
             "leak_scans_documents", "roundtrips_digest_unchanged", "plaintext_in_document_hashed", "alg:md5", "alg:sha1",
             "alg:sha224", "alg:sha256", "alg:sha384", "alg:sha512")
 ASSUMPTIONS = ["hashlib is the reference implementation of the six algorithms", "documents are produced/decoded with the "
@@ -31,7 +31,7 @@ ALGS = {"md5": 16, "sha1": 20, "sha224": 28, "sha256": 32, "sha384": 48, "sha512
 def generate(rng, ctx):
     alg = rng.choice(list(ALGS))
     tok = token(rng)
-    kind = weighted(rng, [(5, "token"), (1, "empty"), (2, "unicode"), (1, "long"), (1, "short"), (2, "shaped"), (2, "compat"), (1.5, "rawbytes"), (1.2, "expands"), (0.25, "sized")])
+    kind = weighted(rng, [(5, "token"), (1, "empty"), (2, "unicode"), (1, "long"), (1, "short"), (2, "shaped"), (2, "compat"), (1.5, "rawbytes"), (1.2, "expands"), (0.25, "sized"), (1, "numeric")])
     size = None
     if kind == "empty":
         p = ""
@@ -53,6 +53,9 @@ def generate(rng, ctx):
         p = rng.choice(["$HOME", "${HOME}", "tok-${PATH}-x", "$PATH:" + tok, "~", "~/" + tok, "%(HOME)s", "%HOME%", "{0}", "{HOME}",
                         "\\n" + tok, "&amp;" + tok, "&#36;HOME", "%24HOME", "$$HOME", "`echo x`", "$(echo x)", "!!str x", "*a", "&a x",
                         "<<: x", "@" + tok, "%s" + tok]) + rng.choice(["", "", tok])
+    elif kind == "numeric":
+        # PINs and other secrets that read like numbers, booleans or nothing
+        p = rng.choice(["4711", "0042", "1e3", "-0", "1_000", "nan", "12.50", "true", "null", "0x1F", "+7", "1,5", " 42 "])
     elif kind == "sized":
         # long secrets whose encoded length sits on and next to the round sizes a buffered reader or hasher would use
         unit = rng.choice([1 << 16, 1 << 20, 1 << 20, 1 << 19, 4096, 1 << 21])
@@ -176,6 +179,7 @@ def run(case, ctx, res):
     schema.items = cc.ListField(item)
     schema.pws = cc.ListField(cc.ChallengeField(algname))
     schema.initial = cc.ListField(cc.StringField())  # a list of plain texts right next to the list of challenges
+    schema.named = cc.DictField(cc.StringField(), cc.ChallengeField(algname))
     schema.name = cc.StringField(default="n")
     schema.inc = cc.IncludeField()
 
@@ -333,6 +337,26 @@ def run(case, ctx, res):
                 res.viol("M-digest", "salt-reused:list-" + how, "%s: equal secrets in one list operation share a salt (%d items, %d salts)" % (
                     how, len(mine), len(set(mine))))
                 return
+    # a dict of challenges: every way of putting the secret in hashes it (update with the dict's own copy plus keywords too)
+    if pb:
+        d = cfg2.named
+        if d is None:
+            cfg2.named = {}
+            d = cfg2.named
+        d["direct"] = p
+        d.update({"mapped": p})
+        d.update(viakw=p)
+        d.update(d.copy(), withcopy=p)
+        d.setdefault("dflt", p)
+        d |= {"ior": p}
+        res.count("dict_of_challenges_checks")
+        for k, v in d.items():
+            if not isinstance(v, cc.DigestValue) or hashlib.new(alg, bytes(v.salt) + pb).digest() != bytes(v.digest):
+                res.viol("M-digest", "dict-entry-not-hashed:" + k, "the entry %r of a dict of challenge values holds %s" % (k, _short(v)))
+                return
+        if len({bytes(v.salt) for v in d.values()}) != len(d):
+            res.viol("M-digest", "salt-reused:dict", "entries of a dict of challenge values share a salt")
+            return
     # the printed form salt:digest parses back to the same pair
     res.count("printed_forms_parsed_back")
     try:
@@ -440,6 +464,26 @@ def run(case, ctx, res):
                 if find_token(out, tok):
                     res.viol("M-hand", "plaintext-survives-resave", "saving after loading a hand-written plaintext still writes it")
                     return
+    # ... also in an XML document typed by hand: the leaves carry no type attribute, whatever the text looks like
+    if isinstance(p, str) and p and trees.in_domain("xml", {"k": p}) and p == p.strip() and "\r" not in p:
+        from xml.sax.saxutils import escape
+
+        e = escape(p)
+        text = ("<config><pw>%s</pw><sub type=\"dict\"><deep type=\"dict\"><pw>%s</pw></deep></sub><pws type=\"list\"><item>%s</item>"
+                "</pws></config>" % (e, e, e))
+        hand = schema()
+        try:
+            hand.loads(text, "xml")
+        except Exception as exc:
+            res.viol("M-hand", "untyped-xml-plaintext-rejected", "an XML document typed by hand (leaves without a type attribute) with the "
+                     "plaintext %s raised %s: %s" % (_short(p), type(exc).__name__, str(exc)[:120]))
+            return
+        res.count("plaintext_in_hand_typed_xml_hashed")
+        for where, v in (("pw", hand.pw), ("sub.deep.pw", hand.sub.deep.pw), ("pws[0]", hand.pws[0])):
+            if not isinstance(v, cc.DigestValue) or hashlib.new(alg, bytes(v.salt) + pb).digest() != bytes(v.digest):
+                res.viol("M-hand", "untyped-xml-plaintext-not-hashed", "plaintext %s at %s of a hand-typed XML document was loaded as %s" % (
+                    _short(p), where, _short(v)))
+                return
     # ... also when it comes from an included file and the including document holds a saved salt/digest pair for the key
     if isinstance(p, str) and p and place in ("root", "default-plain", "assigned-digest", "default-digest", "nested"):
         import os
